@@ -228,3 +228,75 @@ def run(ctx):
     ctx.extra["exhaustive"] = False
     ctx.extra["exhaustive_note"] = "all scripts up to length %d for %d dyadic and (length %d) %d non-dyadic option triples" % (
         maxlen, len(DYADIC_OPTS), maxlen - 1, len(FLOAT_OPTS))
+
+
+# ---- the real inner problem under the homotopy loop: what is returned solves the theta = 1 problem -----------
+def real_homotopy_runs(ctx):
+    """a transcribed model whose equations depend on the homotopy parameter, solved by IPOPT under the real
+    HomotopyMixin for several (theta_start, delta_theta_0): the returned trajectory must satisfy the
+    equations at theta = 1, and every inner solve must have used the theta the loop announced"""
+    import numpy as np
+    from fractions import Fraction
+    from rtctools.optimization.homotopy_mixin import HomotopyMixin
+    from .. import problems
+    rng = ctx.rng
+    for _ in range(ctx.n(6, 60)):
+        ts = rng.choice([0.0, 0.0, 0.25, 0.5, 0.3])
+        d0 = rng.choice([1.0, 0.5, 0.25])
+        a, b = rng.randint(2, 6), rng.randint(-3, 3)
+        spec = {"times": ["0", "1", "2"], "states": [], "algebraics": ["y", "w"], "controls": [], "parameters": ["hth"],
+                "param_values": [{"hth": "0"}],
+                # y = a * hth + b ;  w = y * hth
+                "residual": [["-", ["v", "y"], ["+", ["*", ["c", str(a)], ["v", "hth"]], ["c", str(b)]]],
+                             ["-", ["v", "w"], ["*", ["v", "y"], ["v", "hth"]]]]}
+        Base = problems.make_base(spec)
+        log = []
+
+        class P(HomotopyMixin, Base):
+            def homotopy_options(self):
+                o = super().homotopy_options()
+                o.update({"homotopy_parameter": "hth", "theta_start": ts, "delta_theta_0": d0, "delta_theta_min": 0.01})
+                return o
+
+            def solver_options(self):
+                o = super().solver_options()
+                o["ipopt"] = {"print_level": 0, "tol": 1e-10}
+                o["print_time"] = False
+                return o
+
+            def priority_completed(self, priority):
+                pass
+
+            def transcribe(self):
+                log.append(float(self.parameters(0)["hth"]))
+                return super().transcribe()
+
+        try:
+            p = P()
+            ok = p.optimize()
+            r = p.extract_results(0)
+            y, w = [float(v) for v in r["y"]], [float(v) for v in r["w"]]
+        except Exception as e:  # noqa: BLE001
+            ctx.violation("homotopy/real-run-exception", {"theta_start": ts, "delta_theta_0": d0, "error": "%s: %s" % (type(e).__name__, str(e)[:160])},
+                          what="a real inner problem under the homotopy loop raised %s" % type(e).__name__)
+            continue
+        ctx.case_done(core.fingerprint(["real", ts, d0]), ts > 0)
+        ctx.count("real_homotopy_runs")
+        rep = {"theta_start": ts, "delta_theta_0": d0, "a": a, "b": b, "thetas_at_transcribe": log, "y": y, "w": w, "returned": bool(ok)}
+        if not ok:
+            ctx.violation("homotopy/real-run-failed", rep, what="a solvable homotopy run returned failure")
+        elif any(abs(v - (a + b)) > 1e-6 for v in y) or any(abs(v - (a + b)) > 1e-6 for v in w):
+            ctx.violation("homotopy/not-the-final-problem", rep,
+                          what="optimize() returned success but y = %s, w = %s do not solve the theta = 1 equations (y = w = %s); thetas solved: %s" % (
+                              y[:2], w[:2], a + b, log))
+        elif not log or abs(log[-1] - 1.0) > 1e-12:
+            ctx.violation("homotopy/last-theta", rep, what="the last inner solve was at theta = %s" % (log[-1:] or None))
+
+
+_run_core = run
+
+
+def run(ctx):  # noqa: F811
+    _run_core(ctx)
+    if not os.environ.get("VERIF_REPLAY"):
+        real_homotopy_runs(ctx)
